@@ -392,6 +392,9 @@ impl StoreTransaction {
             self.delete(COLUMN_CELL, &key)?;
             self.delete(COLUMN_CELL_DATA, &key)?;
             self.delete(COLUMN_CELL_DATA_HASH, &key)?;
+            // a deleted cell must not keep answering from the cell data caches
+            self.cache.cell_data.lock().pop(&key);
+            self.cache.cell_data_hash.lock().pop(&key);
         }
         Ok(())
     }
